@@ -1,0 +1,12 @@
+//go:build !verif
+
+package res
+
+import "sync"
+
+// Simulation hooks. Without the verif build tag they are empty and inlined
+// away; see verif_on.go.
+
+func simYield(point, arg string) {}
+
+func simYieldUnlocked(l sync.Locker, point string) {}
